@@ -1365,7 +1365,7 @@ func (n RangeNumber) IsMax() bool {
 }
 
 func (n RangeNumber) IsMin() bool {
-	return n.isMax
+	return n.isMin
 }
 
 func (n RangeNumber) Integer() *int64 {
